@@ -508,13 +508,13 @@ def c18_corpus(std, info):
          f"# {len(pts)} code points at or next to an end of a range of the std tables Case_Ignorable, Lowercase,",
          "# Uppercase, Lt, of a range of the lower-case LUT (and the images of the range ends), the multi-character",
          "# entries; 16 per input: text a = the probe words of c18.rs:lc_probe around each, ignore_case on, text b =",
-         "# the same probes around the images (so that matching compares lower-cased forms); the harness' canon",
-         "# re-derives the oracle words."]
+         "# the probes of the first four again (so that the matching compares lower-cased probe words); the",
+         "# harness' canon re-derives the oracle words."]
     for k in range(0, len(pts), 16):
         a = []
         for c in pts[k:k + 16]:
             a += lc_probe(c) + [32]
-        o.append("((" + " ".join(str(x) for x in a) + ") (" + " ".join(str(x) for x in a[: len(a) // 2]) + ") 1 () ())")
+        o.append("((" + " ".join(str(x) for x in a) + ") (" + " ".join(str(x) for x in a[: 4 * 13]) + ") 1 () ())")
     return "\n".join(o) + "\n"
 
 
